@@ -61,7 +61,7 @@ RULE = ('endpoints-parse: rendered well-formed address lists plus mutations (dro
         'with a chosen unreachable prefix (each failing with one of 14 exception classes: refused, other ConnectErrors, DNSLookupError, timeouts, OSError, Exception, CancelledError, ...), a scripted handshake (REJECTED/ERROR/DATA steps, unix-fd negotiation, cut '
         'lines), Hello reply or error (whole or cut), 0..14 user operations and replies/expiries on the ready '
         'connection, optionally the close; close-everywhere = every prefix of a base history followed by the close; '
-        'reactions = every assignment of the four reactions to a fixed skeleton of callbacks and calls.  distinct = '
+        'reactions = every assignment of the five reactions to a fixed skeleton of callbacks and calls.  distinct = '
         'distinct canonical JSON of (address, steps); non-trivial = the transport connected (lifecycle) / at least one '
         'entry (parse)')
 
